@@ -5,6 +5,7 @@ key function, FIFO), FileHashSpec.
 """
 import os
 import random
+import zlib
 import shutil
 
 import numpy as np
@@ -510,18 +511,28 @@ def main(tier, seed, replay=None):
     if bad.ok:
         raise tlc.TLCError("untyped key no longer yields a collision")
 
-    # 2. spec -> code
-    depth = 3 if tier == "quick" else 4
-    res = tlc.run("MC_Cache", HIST + BASE.format(
-        m=2, kt="TRUE", al="FALSE", d=depth).replace(
-            "Funcs <- MCFuncs", "Funcs <- HFuncs").replace(
-            "Pool <- MCPool", "Pool <- HPool"), workers=8, timeout=1500)
-    ev.add_tlc("MC_Cache schedule enumeration depth %d" % depth, res)
-    jobs = []
-    for h in res.tagged("H"):
-        sched = tuple((s["f"], s["p"]) for s in h)
-        for m in (2, 3):
-            jobs.append((m, sched))
+    # 2. spec -> code: all schedules of depth 3; thorough adds every 24th
+    # schedule of depth 4 (2.56 million; chosen by hash)
+    def enum(depth):
+        return tlc.run("MC_Cache", HIST + BASE.format(
+            m=2, kt="TRUE", al="FALSE", d=depth).replace(
+                "Funcs <- MCFuncs", "Funcs <- HFuncs").replace(
+                "Pool <- MCPool", "Pool <- HPool"), workers=8, timeout=3000)
+    res = enum(3)
+    ev.add_tlc("MC_Cache schedule enumeration depth 3", res)
+    scheds = sorted({tuple((s["f"], s["p"]) for s in h)
+                     for h in res.iter_tagged("H", consume=True)})
+    if tier != "quick":
+        res4 = enum(4)
+        ev.add_tlc("MC_Cache schedule enumeration depth 4", res4)
+        deep = set()
+        for h in res4.iter_tagged("H", consume=True):
+            sc = tuple((s["f"], s["p"]) for s in h)
+            if zlib.crc32(repr(sc).encode()) % 24 == seed % 24:
+                deep.add(sc)
+        scheds += sorted(deep)
+        ev.extra["depth4_schedules_kept"] = "1/24 (%d)" % len(deep)
+    jobs = [(m, sched) for sched in scheds for m in (2, 3)]
     for case, viol in par.pmap(_replay, jobs, chunk=200):
         ev.traces += 1
         fs = [s[0] for s in case["schedule"]]
@@ -530,8 +541,6 @@ def main(tier, seed, replay=None):
             rep.violation(viol[0], viol[1], case, size=viol[2])
 
     # 2b. the same schedules drive the lazily cached contours (capacity 2, 3)
-    scheds = sorted({tuple((x["f"], x["p"]) for x in h)
-                     for h in res.tagged("H")})
     cjobs = [(m, sc) for sc in scheds for m in (2, 3)]
     if tier == "quick":
         cjobs = par.sample(cjobs, 2, seed)
